@@ -92,8 +92,11 @@ def check(ctx):
            construct=loop.func, text='return/exit in loop',
            message='the argument loop contains %s at %s' % (
                leaves[0].kind if leaves else '', leaves[0].loc() if leaves else ''))
-    appends = [n for n in b.nodes('append') if n.id in region and n.func == loop.func and
-               n.data['list'].site not in region]
+    # the failure list: created before the loop, grows with the argument itself (in the
+    # loop's function or in a result object it feeds)
+    appends = [n for n in b.nodes('append') if n.id in region and
+               n.data['list'].site not in region and
+               (n.func == loop.func or alt_ids(n.data['value']) == r.arg_ids)]
     ctx.ob('R16.1', 'failures are collected in one list created before the loop',
            len(appends) >= 1, node=loop, construct=loop.func, text='failure list',
            message='failed arguments are no longer collected')
